@@ -860,6 +860,71 @@ pub struct GenOpts {
     pub include_n0: bool,
 }
 
+/// Legal but uncommon behaviour of the caller's own futures *while the call is being polled*
+/// (round 15): a user future wakes itself and returns Pending (so it is polled again without
+/// having been completed), a completing user future completes a sibling from inside its own poll
+/// (several functions end within one poll, in an order decided inside the poll), and a user
+/// future sends the interrupt signal itself.
+pub fn inside_poll_spaces(specs: Vec<Spec>, what: &str, limits: Vec<Option<usize>>, with_fail: bool, with_int: bool) -> Vec<Space> {
+    let mut v = vec![];
+    let lim = limits.clone();
+    v.push(space(&format!("user futures that wake themselves (<=1) / complete a sibling from inside their own poll (<=1), all 20 future APIs x order x limits {limits:?}, {what}"), specs.clone(), None, move |s| {
+        let mut c = cfgs_plain(s.n, &Api::all(), &lim, &REVS);
+        if with_fail && s.n >= 1 && s.n <= 3 {
+            c.extend(cfgs_fail(s.n, &try_apis(), &[None, Some(1)], &FWD));
+        }
+        for j in c.iter_mut() {
+            if let JobCfg::S(r) = j {
+                r.gate_tricks = (1, 1);
+            }
+        }
+        c
+    }));
+    let lim = limits.clone();
+    v.push(space(&format!("a user future runs the same graph again from inside its own poll (nested for_each_concurrent / fold_async / stream / for_each_concurrent with yielding functions / try_for_each_concurrent, driven to the end there), 10 `&self` future APIs x order x limits {limits:?}, {what}"), specs.clone(), None, move |s| {
+        let apis: Vec<Api> = Api::all().into_iter().filter(|a| !a.mutable).collect();
+        let mut c = cfgs_plain(s.n, &apis, &lim, &REVS);
+        if with_fail && s.n >= 1 && s.n <= 3 {
+            c.extend(cfgs_fail(s.n, &apis.iter().copied().filter(|a| a.is_try()).collect::<Vec<_>>(), &[None, Some(1)], &FWD));
+        }
+        for j in c.iter_mut() {
+            if let JobCfg::S(r) = j {
+                r.nested = 1;
+            }
+        }
+        c
+    }));
+    if with_int {
+        v.push(space(&format!("signal sent by a user future from inside the poll, 10 _with APIs x order x limit{{None,1}}, 4 strategy/flag combinations, {what}"), specs, None, move |s| {
+            let mut c = cfgs_interrupt(s.n, &Api::all_with(), &[None, Some(1)], &REVS, &STRATS_LIGHT);
+            for j in c.iter_mut() {
+                if let JobCfg::S(r) = j {
+                    r.mid_poll_int = true;
+                }
+            }
+            c
+        }));
+    }
+    v
+}
+
+/// C15 / C20: runs inside runs. The nested run is a run of its own on a graph another run is in
+/// progress on (C20), and the rest of the outer run comes after a completed run on the same graph
+/// value (C15).
+pub fn nested_run_spaces(prop: u8, tier: &str) -> (Vec<Space>, Focus) {
+    let nmax = if tier == "thorough" { 4 } else { 3 };
+    let mut v = inside_poll_spaces(shapes_upto(1, nmax, false), &format!("shapes 1<=n<={nmax}"), vec![None, Some(1)], true, true);
+    v.extend(inside_poll_spaces(decl_specs(3, 1), "all DAGs x declarations n=3 T=1", vec![None], false, false).into_iter().skip(1));
+    let focus = Focus {
+        props: vec![prop],
+        nontrivial_s: |_, f| f.nested_runs > 0,
+        nontrivial_c: |_, _| false,
+        counters_s: |_, f, st| st.count("runs_in_which_a_user_future_drove_a_nested_run_on_the_same_graph", (f.nested_runs > 0) as u64),
+        counters_c: no_counters_c,
+    };
+    (v, focus)
+}
+
 pub fn general_spaces(o: &GenOpts) -> Vec<Space> {
     let mut v = vec![];
     let nmin = if o.include_n0 { 0 } else { 1 };
@@ -884,6 +949,7 @@ pub fn general_spaces(o: &GenOpts) -> Vec<Space> {
     v.push(space("StreamOpts builder methods called in every order (non-default values for all three settings), shapes 1<=n<=3", shapes_upto(1, 3, false), None, move |s| {
         cfgs_opts_orders(s.n, &Api::all_with(), &[None], with_streams)
     }));
+    v.extend(inside_poll_spaces(shapes_upto(1, 3, false), "shapes 1<=n<=3", vec![None, Some(1)], true, true));
     v.extend(unusual_input_spaces(Api::all(), with_streams, vec![None]));
     v.push(space("graphs with access declarations (Data edges), all DAGs x declarations n=3 T=1, 10 _with APIs x order, streams", decl_specs(3, 1), None, move |s| {
         let mut c = cfgs_plain(s.n, &Api::all_with(), &[None], &REVS);
@@ -944,6 +1010,7 @@ pub fn c01(tier: &str) -> (Vec<Space>, Focus) {
     };
     let specs: Vec<Spec> = (1..=3).flat_map(|n| decl_specs(n, 1)).collect();
     v.push(space("n<=3 T=1 with interrupt at every point / every failing subset", specs, None, stress.clone()));
+    v.extend(inside_poll_spaces(decl_specs(3, 1), "all DAGs x declarations n=3 T=1", vec![None], false, false));
     // n=4: reduced configuration menu in the quick tier, the full one in the thorough tier
     v.push(space("all DAGs x declarations, n=4 T=1; for_each_concurrent_with x order", decl_specs(4, 1), None, |s| {
         cfgs_plain(s.n, &[Api { kind: Kind::ForEach, mutable: false, with: true }], &[None], &REVS)
@@ -1258,6 +1325,7 @@ pub fn c06(tier: &str) -> (Vec<Space>, Focus) {
     specs.extend(decl_specs(3, 1));
     v.push(space("all DAGs x declarations n<=2 T=2, n=3 T=1; 6 concurrent _with APIs x order x limit{None,0}; stream, stream_with", specs, None, cfgs.clone()));
     v.push(space("all DAGs x declarations n=3 T=2", decl_specs(3, 2), None, cfgs.clone()));
+    v.extend(inside_poll_spaces(decl_specs(3, 1), "all DAGs x declarations n=3 T=1", vec![None, Some(0)], false, false));
     let nmax = 4;
     let a2 = apis.clone();
     v.push(space(&format!("shapes n<={nmax} without declarations, concurrent APIs (plain and _with)"), shapes_upto(0, nmax, true), None, move |s| {
@@ -1309,6 +1377,15 @@ pub fn c07(tier: &str) -> (Vec<Space>, Focus) {
     }));
     v.push(space("failure + interrupt, shapes n<=3", shapes_upto(1, 3, false), None, |s| {
         cfgs_fail_interrupt(s.n, &Api::all_with(), &[(Strat::Finish, true), (Strat::Finish, false), (Strat::NextN(1), true), (Strat::Ignore, true)])
+    }));
+    v.push(space("user futures that wake themselves (<=1) / complete a sibling from inside their own poll (<=2), every failing subset, 12 try APIs x order x limit{None,1,2}, shapes 1<=n<=3", shapes_upto(1, 3, false), None, |s| {
+        let mut c = cfgs_fail(s.n, &try_apis(), &[None, Some(1), Some(2)], &REVS);
+        for j in c.iter_mut() {
+            if let JobCfg::S(r) = j {
+                r.gate_tricks = (1, 2);
+            }
+        }
+        c
     }));
     let nb = if tier == "thorough" { 3 } else { 2 };
     v.push(space(&format!("tokio budget {{0,1,2,3}} left in up to 2 polls on the failure path, shapes n<={nb}"), shapes_upto(1, nb, false), None, |s| {
@@ -1466,6 +1543,7 @@ pub fn c10(tier: &str) -> (Vec<Space>, Focus) {
     v.push(space("StreamOpts builder methods called in every order, limits {1,2}, shapes 1<=n<=3", shapes_upto(1, 3, false), None, |s| {
         cfgs_opts_orders(s.n, &Api::all_with(), &[Some(1), Some(2)], false)
     }));
+    v.extend(inside_poll_spaces(shapes_upto(1, 3, false), "shapes 1<=n<=3", vec![Some(1), Some(2)], false, false));
     v.extend(mid_spaces(tier, true, false, Some(2)));
     v.extend(antichain_spaces(tier, AntiOpts { futures: true, streams: false, limits: vec![Some(1), Some(2), Some(3), Some(5)], limit_below_width: true, fail_antichain: false }));
     v.extend(tokio_task_spaces(tier, TaskOpts { futures: true, streams: false, fail_single: false, limits: vec![Some(1), Some(2), Some(50)] }));
